@@ -338,6 +338,11 @@ brk("c17-unfix-shared-values", ["C17"], (C, "        SuitObject.reject_shared_va
 brk("c17-shared-guard-skips-strings", ["C17"], (C, "            elif isinstance(item, (bytes, str)) and len(item) > 1:\n                children = []\n", ""))
 brk("c17-shared-guard-skips-maps", ["C17"], (C, "            elif isinstance(item, Mapping):\n                children = [*item.keys(), *item.values()]\n", ""))
 brk("c17-shared-guard-wrong-error", ["C17"], (C, '                raise ValueError("CBOR shared values are not supported!")', '                raise RuntimeError("CBOR shared values are not supported!")'))
+brk("c17-unfix-snan", ["C17"], (C, "            if isinstance(item, Decimal) and item.is_snan():\n                raise ValueError(\"CBOR decimal fractions holding a signaling NaN are not supported!\")\n", ""))
+brk("c17-snan-check-after-skip", ["C17"], (C, "            if isinstance(item, Decimal) and item.is_snan():\n                raise ValueError(\"CBOR decimal fractions holding a signaling NaN are not supported!\")\n", ""),
+    (C, "            if id(item) in seen:\n                raise ValueError(\"CBOR shared values are not supported!\")\n", "            if isinstance(item, Decimal) and item.is_snan():\n                raise ValueError(\"CBOR decimal fractions holding a signaling NaN are not supported!\")\n            if id(item) in seen:\n                raise ValueError(\"CBOR shared values are not supported!\")\n"))
+brk("c17-snan-wrong-error", ["C17"], (C, "                raise ValueError(\"CBOR decimal fractions holding a signaling NaN are not supported!\")", "                raise ArithmeticError(\"CBOR decimal fractions holding a signaling NaN are not supported!\")"))
+ben("c17-snan-any-nan", ["C17"], (C, "            if isinstance(item, Decimal) and item.is_snan():", "            if isinstance(item, Decimal) and item.is_nan():"))
 brk("c17-validate-after-loads", ["C17"], (C, "        SuitObject.validate_cbor(cbstr)\n        try:\n            with io.BytesIO(cbstr) as stream:\n                data = cbor2.load(stream)\n", "        try:\n            with io.BytesIO(cbstr) as stream:\n                data = cbor2.load(stream)\n                SuitObject.validate_cbor(cbstr)\n"))
 brk("c17-length-check-inverted", ["C17"], (C, "        if requested_memory_len and requested_memory_len > len(cbstr):", "        if requested_memory_len and requested_memory_len < len(cbstr):"))
 brk("c17-empty-check-dropped", ["C17"], (C, "        if len(cbstr) < 1:\n            raise ValueError(\"The cbstr parsed object is empty\")\n", "        if len(cbstr) < 0:\n            raise ValueError(\"The cbstr parsed object is empty\")\n"))
